@@ -1,12 +1,13 @@
 #!/bin/bash
 # usage: round2.sh Cxx ... : confirm + import the round-2 changes of each property, then run its quick check against each
 cd /verif; mkdir -p .work
+export NS="${NS:-15 16}"; RLOG=${RLOG:-.work/round8.txt}
 for C in "$@"; do
-  /venv/bin/python tools/import_seeded.py $C 2>&1 | grep -E "^$C " >> .work/round7.txt
-  for n in 13 14; do
+  /venv/bin/python tools/import_seeded.py $C 2>&1 | grep -E "^$C " >> $RLOG
+  for n in $NS; do
     d=seeded/$C-m$n
     [ -f $d/patch.diff ] || continue
     out=$(bash tools/try_mutant_wt.sh $d/patch.diff $C quick 2>&1)
-    echo "$C-m$n $(echo "$out" | grep -o 'rc=[0-9]*' | tail -1) | $(echo "$out" | grep -m1 '^VIOLATION' | cut -c1-100) | $(echo "$out" | grep -E "^\[$C\] quick" | tail -1)" >> .work/round7.txt
+    echo "$C-m$n $(echo "$out" | grep -o 'rc=[0-9]*' | tail -1) | $(echo "$out" | grep -m1 '^VIOLATION' | cut -c1-100) | $(echo "$out" | grep -E "^\[$C\] quick" | tail -1)" >> $RLOG
   done
 done
